@@ -8,10 +8,13 @@ import re
 import shutil
 import subprocess
 import sys
+import threading
 import time
 from concurrent.futures import ThreadPoolExecutor
 
 sys.set_int_max_str_digits(0)
+sys.setrecursionlimit(40000)          # replies describing deeply nested syntax trees are decoded and walked recursively
+threading.stack_size(256 << 20)
 VERIF = os.path.dirname(os.path.dirname(os.path.abspath(__file__)))
 REPO = "/repo"
 COQ = os.path.join(VERIF, "coq")
